@@ -2,7 +2,7 @@
 From Coq Require Import Lia.
 From V.Model Require Import Base Templates Conv ConvSpec.
 From V.Gen Require Import GenSrc.
-From V.Proofs Require Import TemplatesProofs SrcObligationsGen ClassRoundtrip ConvSound ConvRoundtrip ConvAgree ConvCfg.
+From V.Proofs Require Import ConvUnAgree TemplatesProofs SrcObligationsGen ClassRoundtrip ConvSound ConvRoundtrip ConvAgree ConvCfg.
 
 (* 1. Class level, structuring.  For every payload value type, every class whose attributes are all
       __init__ arguments (any number / order / mix of required, defaulted, kw_only, aliased attributes,
@@ -106,3 +106,43 @@ Example C06_needs_mapping_shaped_inputs :
   structure q_env (mk_cfg true false false false) 4 (TClass 1) (VList [VAtom PInt 5]) = Ok (VInst 1 [(1, VAtom PInt 0)])
   /\ is_ok (structure q_env (mk_cfg false false false false) 4 (TClass 1) (VList [VAtom PInt 5])) = false.
 Proof. split; vm_compute; reflexivity. Qed.
+
+
+(* 4. Unstructuring, nested.  For EVERY environment (classes whose attributes are all __init__ arguments, declared attribute types
+      BaseConverter has hooks for), every type BaseConverter has unstructure hooks for at every depth ([base_deep]: no heterogeneous
+      tuples, NewTypes or Annotated), EVERY value of the type, either strategy, any validation modes and any fuel: whatever Converter
+      (declared types everywhere) returns, BaseConverter (collections by the runtime class of their elements) returns too, with the
+      same fuel, and the two results are equal once tuples are read as lists ([lst]) -- the documented container difference:
+      Converter turns homogeneous tuples into lists, BaseConverter keeps the container's class. *)
+Theorem C06_nested_unstructure_agreement :
+  forall (E : env) (dvG dvB tup : bool),
+    (forall c cd, e_class E c = Some cd ->
+       wf val (topt (mk_cfg true dvG tup false) c) nov (cd_fields cd) /\ (forall f, In f (cd_fields cd) -> f_init f = true) /\
+       (forall nm ft, assoc (cd_types cd) nm = Some ft -> base_deep ft = true)) ->
+    forall (n : nat) (t : ty) (x u : val),
+      rt_value E false x t -> base_deep t = true ->
+      unstructure E (mk_cfg true dvG tup false) n t x = Ok u ->
+      exists u', unstructure E (mk_cfg false dvB tup false) n t x = Ok u' /\ lst u' = lst u.
+Proof.
+  intros E dvG dvB tup Henv. apply unstructure_agree; [reflexivity | reflexivity | reflexivity | exact Henv].
+Qed.
+Print Assumptions C06_nested_unstructure_agreement.
+
+(* non-vacuity: a class holding a homogeneous tuple of enum members and a list of instances of itself: Converter emits a list for
+   the tuple, BaseConverter a tuple; read as lists they coincide *)
+Local Open Scope N_scope.
+Definition u_fields : list (field val) :=
+  [ {| f_name := 1; f_alias := 1; f_dflt := None; f_init := true; f_kw_only := false; f_kw_seen := false; f_conv := false |};
+    {| f_name := 2; f_alias := 2; f_dflt := Some (VList []); f_init := true; f_kw_only := false; f_kw_seen := false; f_conv := false |} ].
+Definition u_env : env :=
+  {| e_class := fun c => if N.eqb c 1 then Some {| cd_fields := u_fields; cd_types := [(1, TTupleHom (TEnum 0)); (2, TList (TClass 1))] |} else None;
+     e_enum := fun en => if N.eqb en 0 then [VAtom PInt 20; VAtom PInt 21] else [];
+     e_coerce := fun _ _ => Err EType; e_in := fun _ _ => Err EType; e_iter := fun _ => Err EType; e_len := fun _ => Err EType |}.
+Definition u_x : val := VInst 1 [(1, VTuple [VEnum 0 1; VEnum 0 0]); (2, VList [VInst 1 [(1, VTuple []); (2, VList [])]])].
+Example C06_unstructure_example :
+  unstructure u_env (mk_cfg true true false false) 9 (TClass 1) u_x
+    = Ok (VDict [(VAtom PStr 1, VList [VAtom PInt 21; VAtom PInt 20]); (VAtom PStr 2, VList [VDict [(VAtom PStr 1, VList []); (VAtom PStr 2, VList [])]])])
+  /\ unstructure u_env (mk_cfg false true false false) 9 (TClass 1) u_x
+    = Ok (VDict [(VAtom PStr 1, VTuple [VAtom PInt 21; VAtom PInt 20]); (VAtom PStr 2, VList [VDict [(VAtom PStr 1, VTuple []); (VAtom PStr 2, VList [])]])])
+  /\ base_deep (TClass 1) = true.
+Proof. repeat split; vm_compute; reflexivity. Qed.
